@@ -21,6 +21,7 @@ META = {
     ),
 }
 META["explanation"] += " C18.R3 also: decision table of _is_dated - with force_io a 'not dated' answer follows an I/O read of the change counter."
+META["explanation"] += ' C18.R3 also: a protocol error from the RQ|0006 exchange cannot be swallowed.'
 
 MUTATORS = {"append", "extend", "insert", "pop", "remove", "clear", "update", "setdefault", "popitem", "sort", "reverse", "add", "discard"}
 
